@@ -23,15 +23,16 @@ import props as P
 THEOREMS = {
     "C06": ["Conc.locked_object_linearizable", "Conc.impl_refines_spec", "Conc.spec_linearizable", "Conc.impl_wellFormed",
             "Verif.Conc.table_wellLocked", "Verif.Conc.table_classes", "Verif.Conc.generated_cs_no_overlap",
-            "Verif.Conc.generated_rel_by_holder"],
+            "Verif.Conc.generated_rel_by_holder", "Verif.Conc.wrapper_faithful", "Verif.Lin.check_sound", "Verif.Lin.check_complete",
+            "Verif.Lin.isLin_linearizable", "Verif.Lin.linearizable_isLin"],
     "C07": ["Verif.Conc.table_guarded", "Verif.Conc.table_guarded_classes", "Verif.Conc.generated_guarded_race_free",
             "Verif.Conc.generated_guarded_access_under_lock", "Verif.Conc.generated_guarded_happens_before",
             "Verif.Conc.guarded_race_free", "Verif.Conc.guarded_access_under_lock", "Verif.Conc.guarded_happens_before",
-            "Verif.Conc.wellLocked_guarded"],
+            "Verif.Conc.wellLocked_guarded", "Verif.Conc.wrapper_faithful"],
 }
 
 EXPLAIN = {
-    "C06": "locked_object_linearizable: any object whose methods run their whole body in one critical section of one mutex (arbitrary intermediate writes allowed inside) has only Herlihy-Wing linearizable histories, for any number of threads and any schedule; table_wellLocked: every public method of the ten containers, as read from the current headers by tools/lockshape.py, has that form (range methods: the loop is inside the one critical section, so a range is one atomic step). PARTIAL: the theorem is about the lock-level model; that the critical section's net effect is the sequential operation is the sequential tie (C01-C20 correspondence); std::mutex is trusted.",
+    "C06": "locked_object_linearizable: any object whose methods run their whole body in one critical section of one mutex (arbitrary intermediate writes allowed inside) has only Herlihy-Wing linearizable histories, for any number of threads and any schedule; table_wellLocked: every public method of the ten containers, as read from the current headers by tools/lockshape.py, has that form (range methods: the loop is inside the one critical section, so a range is one atomic step). PARTIAL: the theorem is about the lock-level model; that the critical section's net effect is the sequential operation is the sequential tie (C01-C20 correspondence); std::mutex is trusted. The executable checker that judges the recorded histories of real threads (Lin.lean, Wing-Gong search) is proved sound and complete against the container model (Lin.check_sound: `some true` => a real-time-respecting legal ordering exists; Lin.check_complete: `some false` => none exists; budget exhaustion claims nothing), and that notion is Herlihy-Wing linearizability of the event history the records come from (Lin.isLin_linearizable, Lin.linearizable_isLin), i.e. the very conclusion of locked_object_linearizable.",
     "C07": "table_guarded (every access to mutable state of every public method lies inside some critical section; weaker than C06's one-critical-section shape) => generated_guarded_race_free / generated_guarded_happens_before: in every execution of the token-level machine over the generated table no two threads have conflicting enabled accesses, and two conflicting accesses are separated by a release of one thread and an acquire of the other; components no method writes (vector headers, construction-time constants) conflict with nothing. PARTIAL: a data race is a property of the C++ abstract machine; the model reaches it through the translator's access table (const use = read), cross-checked by ThreadSanitizer on all method pairs.",
 }
 
@@ -111,7 +112,24 @@ def bad_methods(prop):
         t = l.split(None, 2)
         if len(t) == 3:
             shapes[t[0] + "." + t[1]] = t[2]
-    return [(n, shapes.get(n, "?")) for n in names]
+    out = [(n, shapes.get(n, "?")) for n in names]
+    w = [l for l in s.stdout.splitlines() if l.startswith("wrapper ")]
+    if w and "'lock': [1]" in w[0] and "'unlock': [2]" in w[0] and "'underlying': 'std::mutex'" in w[0]:
+        pass
+    else:
+        out.append(("lock.hpp: cappuccino::mutex<thread_safe::yes> is not a plain forwarder to a std::mutex (theorem wrapper_faithful)", w[0] if w else "?"))
+    return out
+
+
+def run_to(cmd, timeout, env=None):
+    """subprocess with a wall-clock limit. Returns (returncode or None on timeout, stdout, stderr)."""
+    try:
+        r = subprocess.run(cmd, stdout=subprocess.PIPE, stderr=subprocess.PIPE, text=True, env=env, timeout=timeout)
+        return r.returncode, r.stdout, r.stderr
+    except subprocess.TimeoutExpired as e:
+        def txt(b):
+            return b.decode("utf-8", "replace") if isinstance(b, bytes) else (b or "")
+        return None, txt(e.stdout), txt(e.stderr)
 
 
 def tsan_matrix(exe, kinds, iters):
@@ -119,12 +137,13 @@ def tsan_matrix(exe, kinds, iters):
     env = dict(os.environ, TSAN_OPTIONS="halt_on_error=0 exitcode=0 report_signal_unsafe=0 history_size=2")
 
     def one(k):
-        r = subprocess.run([exe, "tsan", k, str(iters)], stdout=subprocess.PIPE, stderr=subprocess.PIPE, text=True, env=env)
+        limit = 120 + iters // 2
+        rcode, _, rerr = run_to([exe, "tsan", k, str(iters)], limit, env)
         pairs = 0
         races = []
         cur = None
         buf = []
-        for ln in r.stderr.splitlines():
+        for ln in rerr.splitlines():
             if ln.startswith("@pair") or ln.startswith("@done"):
                 if cur and any("ThreadSanitizer" in b for b in buf):
                     races.append({"kind": k, "pair": cur, "report": "\n".join(buf)[:3000]})
@@ -134,8 +153,10 @@ def tsan_matrix(exe, kinds, iters):
                     pairs += 1
             else:
                 buf.append(ln)
-        if r.returncode != 0 and not races:
-            races.append({"kind": k, "pair": cur or "?", "report": "exit %d\n%s" % (r.returncode, r.stderr[-2000:])})
+        if rcode is None and not races:
+            races.append({"kind": k, "pair": cur or "?", "report": "the two threads did not finish within %d s (hang, livelock or corrupted structure) while running this pair\n%s" % (limit, rerr[-1500:])})
+        elif rcode != 0 and not races:
+            races.append({"kind": k, "pair": cur or "?", "report": "exit %d\n%s" % (rcode, rerr[-2000:])})
         return pairs, races
 
     tot = 0
@@ -151,18 +172,24 @@ def histories(exe, kinds, seed, n, n_poll):
     """Returns (count, fails=[dict(kind, text)], undecided, samples)."""
     def one(k):
         out = []
+        died = []
         cap = 3
-        r = subprocess.run([exe, "hist", k, str(seed), str(n), "3", "4", str(cap), "mix"], stdout=subprocess.PIPE, stderr=subprocess.PIPE, text=True)
-        out.append(r.stdout)
+        runs = [[exe, "hist", k, str(seed), str(n), "3", "4", str(cap), "mix"]]
         if k not in ("utmap", "utset"):
-            r2 = subprocess.run([exe, "hist", k, str(seed + 1), str(n_poll), "2", "12", str(cap), "poll"], stdout=subprocess.PIPE, stderr=subprocess.PIPE, text=True)
-            out.append(r2.stdout)
-        if k not in ("utmap", "utset"):
-            r3 = subprocess.run([exe, "hist", k, str(seed + 2), str(max(4, n_poll)), "2", "20", "260", "bigrange"], stdout=subprocess.PIPE, stderr=subprocess.PIPE, text=True)
-            out.append(r3.stdout)
+            runs.append([exe, "hist", k, str(seed + 1), str(n_poll), "2", "12", str(cap), "poll"])
+            runs.append([exe, "hist", k, str(seed + 2), str(max(4, n_poll)), "2", "20", "260", "bigrange"])
         if k in ("tlru", "utlru", "utmap", "utset"):
-            r4 = subprocess.run([exe, "hist", k, str(seed + 3), str(max(4, n_poll // 2)), "3", "6", "260", "bigclean"], stdout=subprocess.PIPE, stderr=subprocess.PIPE, text=True)
-            out.append(r4.stdout)
+            runs.append([exe, "hist", k, str(seed + 3), str(max(4, n_poll // 2)), "3", "6", "260", "bigclean"])
+        for cmd in runs:
+            limit = 120 + int(cmd[4]) // 5
+            rcode, rout, rerr = run_to(cmd, limit)
+            # keep only complete histories of a run that died
+            if rcode != 0:
+                rout = rout[:rout.rfind("end\n") + 4] if "end\n" in rout else ""
+                what = ("did not finish within %d s (hang, livelock or corrupted structure)" % limit) if rcode is None else ("died with exit code %s" % rcode)
+                died.append({"kind": k, "text": "the thread program `conc %s` %s" % (" ".join(cmd[1:]), what),
+                             "history": "# scenario: conc %s\n# %s\n" % (" ".join(cmd[1:]), rerr[-1200:].replace("\n", "\n# "))})
+            out.append(rout)
         text = "".join(out)
         d = subprocess.run([C.DRIVER], input=text, stdout=subprocess.PIPE, stderr=subprocess.PIPE, text=True)
         scripts = [s for s in text.split("end\n") if s.strip()]
@@ -180,6 +207,8 @@ def histories(exe, kinds, seed, n, n_poll):
                 und += 1
             else:
                 fails.append({"kind": k, "text": ln, "history": scripts[i] + "end\n" if i < len(scripts) else ""})
+        # a non-linearizable history is the better replay; a run that died or hung is reported if there is none
+        fails = fails + died
         return ok, fails, und, (scripts[0].splitlines()[:8] if scripts else [])
 
     tot, allf, und, samples = 0, [], 0, []
@@ -259,6 +288,7 @@ def main(prop, tier, seed, t0):
 
 
 def finish(prop, tier, seed, t0, audit, cov, violations, bad):
+    cov = dict(cov, public_methods_no_harness_exercises=C.unexercised_methods())
     thms = THEOREMS[prop]
     discharged = [t for t in thms if t in audit.get("axioms", {})]
     table_n = 0
